@@ -70,10 +70,26 @@ def coarse_specs(ctx):
     return specs
 
 
+def option_toggle_specs(ctx):
+    """Constrained runs with one boolean option switched away from its default each (the constraint binds: the unconstrained optimum is
+    infeasible): whatever alternative code path an option enables must still keep every evaluation feasible."""
+    from .. import gen
+    rng = ctx.sub_rng("c02toggle")
+    specs = []
+    names = gen.boolean_options()
+    for j, (name, dflt) in enumerate(names):
+        sp = gen.make_spec(rng, D=2, geom=rng.choice(["box", "unbounded"]), mode=rng.choice(["det", "det", "decl"]), cons=rng.choice(["ball", "halfspace"]),
+                           opt_loc="outside", target="quad")
+        sp["options"] = {"n_search": 32, "max_fun_evals": 30 if sp["mode"] == "det" else 60, name: (not dflt)}
+        specs.append(sp)
+    return specs
+
+
 def run(ctx):
     rep = Report()
     ncon, cstats = construction_cases(ctx, rep)
     runlevel.with_extra(ctx, "c02coarse", lambda: coarse_specs(ctx))
+    runlevel.with_extra(ctx, "c02toggle", lambda: option_toggle_specs(ctx))
     stats, samples = runlevel.pipe_replay(ctx, rep, "C02")
     fcov = runlevel.filter_events(ctx, rep, want_clauses=("feasible",))
     traces = runlevel.get_pool(ctx)
